@@ -462,6 +462,14 @@ impl Vm {
       },
     });
 
+    // an instance of a subclass would reach natives that expect the builtin's own object kind
+    if self.builtin.primitives.is_value_class(super_class) {
+      return self.runtime_error_from_str(
+        self.builtin.errors.runtime,
+        "Cannot inherit from a builtin value class.",
+      );
+    }
+
     let hooks = GcHooks::new(self);
     let mut sub_class = self.fiber.peek(0).to_obj().to_class();
 
